@@ -1,17 +1,108 @@
 (* C10 — a tiled-strided layout means the same thing everywhere.
-   Only theorem statements closed by `exact`, each followed by Print Assumptions. *)
-From Snax Require Import Base.Prelude Model.Tsl Proofs.TslProofs.
+   Only theorem statements closed by `exact`, each followed by Print Assumptions.
+   Model: coq/Model/Tsl.v (hand model of snaxc/ir/tsl/* and TiledStridedLayoutAttr.get_affine_map),
+   tied to the code by the L1 correspondence in harness/props/c10.py on every run.
+   `layout_okb l` = every stride static with bound > 0 (any rank, any tile depth, any steps). *)
+From Snax Require Import Base.Prelude Model.Tsl Model.TslText Proofs.TslProofs Proofs.TslProofs2 Proofs.TslProofs3 Proofs.TslTextProofs.
+From Coq Require Import Permutation.
 
-(* Canonicalising a static layout with positive bounds does not change the enumeration of
-   addresses (hence not the index->address function), nor the offset. *)
-Theorem C10_canonicalize_all_values :
-  forall l, layout_okb l = true -> all_values (canonicalize l) = all_values l /\ offset (canonicalize l) = offset l.
-Proof. intros l H. split; [exact (canonicalize_all_values l (proj1 (layout_okb_ok l) H)) | exact (canonicalize_offset l)]. Qed.
-Print Assumptions C10_canonicalize_all_values.
+(* 1. The affine map used for stream address generation, evaluated over the row-major index box,
+      IS the enumeration all_values() (used for density/overlap and DMA/alloc reasoning). *)
+Theorem C10_affine_map_enumerates_all_values :
+  forall l, layout_okb l = true ->
+  map (affine_map_eval l) (row_major (shape_of l)) = all_values l.
+Proof. intros l H. exact (affine_map_all_values l (proj1 (layout_okb_ok l) H)). Qed.
+Print Assumptions C10_affine_map_enumerates_all_values.
 
-(* non-vacuity: a depth-3 layout that canonicalize really changes *)
-Example C10_canonicalize_nonvacuous :
+(* 2. Canonicalising does not change the enumeration, the shape, the offset, nor the
+      index -> address function at any index of the box. *)
+Theorem C10_canonicalize_preserves :
+  forall l, layout_okb l = true ->
+  all_values (canonicalize l) = all_values l /\
+  shape_of (canonicalize l) = shape_of l /\
+  offset (canonicalize l) = offset l /\
+  layout_okb (canonicalize l) = true /\
+  forall idx, Forall2 (fun i n => 0 <= i < n) idx (shape_of l) ->
+              affine_map_eval (canonicalize l) idx = affine_map_eval l idx.
+Proof.
+  intros l H. pose proof (proj1 (layout_okb_ok l) H) as Hok.
+  split; [exact (canonicalize_all_values l Hok)|].
+  split; [exact (canonicalize_shape l Hok)|].
+  split; [exact (canonicalize_offset l)|].
+  split; [exact (proj2 (layout_okb_ok _) (canonicalize_ok l Hok))|].
+  exact (canonicalize_affine_map l Hok).
+Qed.
+Print Assumptions C10_canonicalize_preserves.
+
+(* 3. A layout built from plain strides and tile bounds addresses element idx at sum_d stride_d*idx_d,
+      and its shape is the product of the tile bounds. *)
+Theorem C10_from_strides_addr :
+  forall strides bss off,
+  Forall (fun s => s <> 0) strides -> Forall (Forall (fun b => 0 < b)) bss -> length strides = length bss ->
+  let l := from_strides (map Some strides) (map (map Some) bss) off in
+  layout_ok l /\ shape_of l = map zprod bss /\
+  forall idx, Forall2 (fun i n => 0 <= i < n) idx (map zprod bss) -> affine_map_eval l idx = dotZ strides idx.
+Proof. exact from_strides_addr. Qed.
+Print Assumptions C10_from_strides_addr.
+
+(* 4. The overlap predicate is exactly "some address is enumerated twice"; the density predicate
+      implies the addresses are exactly 0..n-1, each once. *)
+Theorem C10_self_overlaps_spec : forall l, self_overlaps l = false <-> NoDup (all_values l).
+Proof. exact self_overlaps_spec. Qed.
+Print Assumptions C10_self_overlaps_spec.
+
+Theorem C10_is_dense_spec :
+  forall l, Forall (fun v => 0 <= v) (all_values l) -> is_dense l = true ->
+  Permutation (all_values l) (zrange (Z.of_nat (length (all_values l)))).
+Proof. exact is_dense_spec. Qed.
+Print Assumptions C10_is_dense_spec.
+
+(* 5. The common contiguous block reported for two layouts is either the single-element default, or
+      every returned stride sits at one (dim, depth) position in BOTH layouts with equal (step, bound)
+      and the steps chain contiguously from the starting stride:
+      step_0 = start, step_{k+1} = step_k * bound_k.   (any layouts, incl. dynamic entries) *)
+Theorem C10_lccb_shared_contiguous :
+  forall a b start,
+  lccb a b start = [(Some start, Some 1)] \/
+  (chain (Some start) (lccb a b start) /\ Forall (shared a b) (lccb a b start)).
+Proof. exact lccb_sound. Qed.
+Print Assumptions C10_lccb_shared_contiguous.
+
+(* 6. Textual form: print then parse gives an equal layout, including dynamic (`?`) bounds/steps and
+      any static offset; `printable` excludes exactly: a zero step/bound (printed as `?`) and a dynamic
+      offset.  The latter is refuted on the faithful model (known finding F21). *)
+Theorem C10_print_parse_roundtrip :
+  forall l, printable l = true -> tstrides l <> [] -> parse_layout (print_layout l ++ [TGreater]) = Some l.
+Proof. exact print_parse_roundtrip. Qed.
+Print Assumptions C10_print_parse_roundtrip.
+
+Theorem C10_print_parse_refuted_dynamic_offset :
+  exists l, tstrides l <> [] /\ parse_layout (print_layout l ++ [TGreater]) <> Some l.
+Proof. exact print_parse_refuted_dynamic_offset. Qed.
+Print Assumptions C10_print_parse_refuted_dynamic_offset.
+
+(* ---- non-vacuity ------------------------------------------------------------------ *)
+Example C10_nonvacuous_canonicalize :
   let l := mkLayout [[(Some 8, Some 2); (Some 4, Some 2); (Some 1, Some 4)]; [(Some 16, Some 1); (Some 32, Some 3)]] (Some 0) in
-  layout_okb l = true /\ canonicalize l <> l.
-Proof. split; [reflexivity | discriminate]. Qed.
-Print Assumptions C10_canonicalize_nonvacuous.
+  layout_okb l = true /\ canonicalize l <> l /\ length (all_values l) = 48%nat.
+Proof. split; [reflexivity|]. split; [discriminate | reflexivity]. Qed.
+Print Assumptions C10_nonvacuous_canonicalize.
+
+Example C10_nonvacuous_lccb :
+  let a := mkLayout [[(Some 32, Some 2); (Some 4, Some 4)]; [(Some 16, Some 2); (Some 1, Some 4)]] (Some 0) in
+  let b := mkLayout [[(Some 64, Some 2); (Some 4, Some 4)]; [(Some 16, Some 2); (Some 1, Some 4)]] (Some 0) in
+  lccb a b 1 = [(Some 1, Some 4); (Some 4, Some 4); (Some 16, Some 2)].
+Proof. reflexivity. Qed.
+Print Assumptions C10_nonvacuous_lccb.
+
+Example C10_nonvacuous_dense :
+  let l := mkLayout [[(Some 32, Some 2); (Some 4, Some 4)]; [(Some 16, Some 2); (Some 1, Some 4)]] (Some 0) in
+  is_dense l = true /\ Forall (fun v => 0 <= v) (all_values l).
+Proof. split; [reflexivity|]. vm_compute. repeat constructor; discriminate. Qed.
+Print Assumptions C10_nonvacuous_dense.
+
+Example C10_nonvacuous_print_parse :
+  let l := mkLayout [[(None, None); (Some 4, Some 4)]; [(Some 16, Some 2); (Some 1, Some 4)]] (Some (-3)) in
+  printable l = true /\ tstrides l <> [] /\ length (print_layout l) = 27%nat.
+Proof. split; [reflexivity|]. split; [discriminate|reflexivity]. Qed.
+Print Assumptions C10_nonvacuous_print_parse.
